@@ -142,6 +142,20 @@ func runC08(tier string, seed uint64) {
 						}
 					}
 				}
+				// aws-chunked uploads: declared decoded length exact, short by one, long by one, zero
+				for _, pl := range [][]byte{[]byte("chunked payload of some bytes"), []byte("z")} {
+					for _, declared := range []int{len(pl), len(pl) - 1, len(pl) + 1, 0} {
+						r := s.ChunkedPut(b, key, pl, []int{5}, nil, declared%2 == 1, declared)
+						nontrivial(fmt.Sprint(kind, noInt, key, "chunked", len(pl), declared))
+						snapshot()
+						if r.Status == 200 && key == "new" {
+							s.Delete(b, "new")
+						}
+						if r.Status == 200 && key == "obj" {
+							s.Put(b, "obj", []byte("the previous object"), []KV{{"X-Amz-Meta-Keep", "me"}, {"Content-Type", "text/x-prev"}})
+						}
+					}
+				}
 				// missing / unparsable / negative length, empty body
 				for _, h := range [][][2]string{{}, {{"Content-Length", "abc"}}, {{"Content-Length", "-1"}}, {{"Content-Length", ""}}, {{"Content-Length", "12"}, {"Content-MD5", digests["good"]}}} {
 					bd := body
@@ -209,5 +223,5 @@ func runC08(tier string, seed uint64) {
 			s.end()
 		}
 	}
-	sample("per backend x integrity on/off (metadata limit 300): PUT over an existing object and over an absent key with Content-MD5 in {absent, good, wrong, malformed, 5-byte digest, unpadded, empty header} x declared length {exact, short by 1, long by 1} x body {12 bytes, empty, 1 byte}; missing / non-numeric / negative / empty Content-Length; empty body with a declared length; body reader failing after every k in 0..len; keys of 1023/1024/1025 bytes; metadata totalling limit-1 / limit / limit+1; the same digest x length matrix, bad part numbers and failing readers for upload-part; after each request a snapshot (GET+HEAD of the previous object, GET of the absent key, bucket listing, ListParts of the pending upload)")
+	sample("per backend x integrity on/off (metadata limit 300): PUT over an existing object and over an absent key with Content-MD5 in {absent, good, wrong, malformed, 5-byte digest, unpadded, empty header} x declared length {exact, short by 1, long by 1} x body {12 bytes, empty, 1 byte}; aws-chunked uploads with the declared decoded length exact / short by one / long by one / zero; missing / non-numeric / negative / empty Content-Length; empty body with a declared length; body reader failing after every k in 0..len; keys of 1023/1024/1025 bytes; metadata totalling limit-1 / limit / limit+1; the same digest x length matrix, bad part numbers and failing readers for upload-part; after each request a snapshot (GET+HEAD of the previous object, GET of the absent key, bucket listing, ListParts of the pending upload)")
 }
